@@ -223,16 +223,191 @@ def history_independence(ctx):
                      {'parser': w, 'document': t, 'history': True})
 
 
+# ------------------------------------------------------------------------------------------ termination oracle
+# "parsing terminates": every parse of a document of the pathological-repetition class (omgen.patho_documents) must finish within
+# a budget that is linear in the length of the document and far above what these parsers need (the slowest document of the class
+# takes ~30 ms here; budget(doc) >= 4 s, i.e. > 100 x).  The documents are parsed in a helper interpreter; this process is the
+# watchdog, so the verdict does not depend on the parser reaching a point where a signal handler could run.  False alarms on a
+# loaded machine are excluded twice: the budget is counted in CPU seconds of the helper (a helper that is not being scheduled gets
+# its deadline extended), and a document that ran out of budget is parsed again, alone, in a fresh interpreter with 1.5 x the
+# budget — only if that runs out too it is reported, as C14:<parser>:does-not-terminate with the document as the failing input.
+TERM_BASE_S = 4.0
+TERM_PER_CHAR_S = 0.0005
+TERM_MAX_FAILURES = 2          # per run: every further region of a non-terminating parser would cost two budgets again
+
+TERM_CHILD = r"""
+import json, sys, time, traceback
+sys.path.insert(0, sys.argv[1])
+from prometheus_client import parser as tp
+from prometheus_client.openmetrics import parser as op
+docs = json.load(sys.stdin)
+sys.stdout.write('R %.6f\n' % time.process_time())
+sys.stdout.flush()
+for i, (which, text) in enumerate(docs):
+    f = tp.text_string_to_metric_families if which == 'text' else op.text_string_to_metric_families
+    t0 = time.perf_counter()
+    try:
+        list(f(text))
+        r = 'ok'
+    except ValueError:
+        r = 'ValueError'
+    except BaseException as e:
+        tb = traceback.extract_tb(e.__traceback__)
+        r = 'ESCAPE:%s:%s' % (type(e).__name__, tb[-1].name if tb else '?')
+    sys.stdout.write('E %d %.6f %.6f %s\n' % (i, time.perf_counter() - t0, time.process_time(), r))
+    sys.stdout.flush()
+"""
+
+
+def term_budget(text):
+    return TERM_BASE_S + TERM_PER_CHAR_S * len(text)
+
+
+def _cpu_of(pid):
+    """CPU seconds (user + system) a process has used so far, or None where /proc is not available"""
+    import os
+    try:
+        with open('/proc/%d/stat' % pid) as fh:
+            fields = fh.read().rsplit(')', 1)[1].split()
+        return (int(fields[11]) + int(fields[12])) / float(os.sysconf('SC_CLK_TCK'))
+    except Exception:   # noqa
+        return None
+
+
+def run_watched(docs, scale=1.0):
+    """parse docs = [(parser, text)] in ONE fresh helper interpreter, in order.  Returns (results, stalled): results[i] =
+    (outcome, seconds) for every document the helper finished; stalled = index of the document that used up scale x its budget
+    (the helper is killed, later documents are not run) or None."""
+    import json
+    import os
+    import select
+    import subprocess
+    import sys
+    import time
+    p = subprocess.Popen([sys.executable, '-c', TERM_CHILD, lib.REPO], stdin=subprocess.PIPE, stdout=subprocess.PIPE, stderr=subprocess.PIPE)
+    results = []
+    stalled = None
+    try:
+        try:
+            p.stdin.write(json.dumps(docs).encode())
+            p.stdin.close()
+        except BrokenPipeError:
+            pass
+        fd = p.stdout.fileno()
+        buf = b''
+        ready = False
+        cpu_mark = 0.0                # the helper's CPU clock when it started the current document
+        started = time.time()
+        extensions = 0
+        while len(results) < len(docs):
+            cur = len(results)
+            budget = (term_budget(docs[cur][1]) * scale) if ready else 60.0       # before 'R': interpreter start-up + imports
+            left = started + budget * (1 + extensions) - time.time()
+            if left > 0:
+                rl, _, _ = select.select([fd], [], [], min(left, 1.0))
+                if rl:
+                    chunk = os.read(fd, 1 << 16)
+                    if not chunk:
+                        break
+                    buf += chunk
+                    while b'\n' in buf:
+                        line, buf = buf.split(b'\n', 1)
+                        parts = line.decode().split(' ', 4)
+                        if parts[0] == 'R':
+                            ready, cpu_mark = True, float(parts[1])
+                        elif parts[0] == 'E':
+                            results.append((parts[4], float(parts[2])))
+                            cpu_mark = float(parts[3])
+                        started, extensions = time.time(), 0
+                continue
+            # the wall-clock budget is used up: did the helper really compute all that time?
+            cpu = _cpu_of(p.pid)
+            if ready and cpu is not None and cpu - cpu_mark < 0.6 * budget and extensions < 8:
+                extensions += 1
+                continue
+            if not ready:
+                raise lib.Infra('termination helper did not start within 60 s')
+            stalled = cur
+            break
+    finally:
+        try:
+            p.kill()
+        except Exception:   # noqa
+            pass
+        err = p.stderr.read().decode('utf-8', 'replace') if p.stderr else ''
+        p.stdout.close()
+        p.stderr.close()
+        p.wait()
+    if stalled is None and len(results) < len(docs):
+        raise lib.Infra('termination helper ended after %d of %d documents: %s' % (len(results), len(docs), err[-400:]))
+    return results, stalled
+
+
+def termination(ctx):
+    import omgen
+    quick = ctx.tier == 'quick'
+    wide = bool(ctx.broken)
+    docs = list(omgen.patho_documents(ctx.rng, full_lengths=(60,) if quick and not wide else (30, 60, 200),
+                                      sample_per_item=(2 if quick and not wide else 10 if quick else None)))
+    pending = list(range(len(docs)))
+    failures = 0
+    slowest = (0.0, 1.0)            # (seconds, budget) of the document that came closest to its budget
+    skip = set()                    # (parser, region) already reported
+    while pending:
+        results, stalled = run_watched([(docs[i][0], docs[i][2]) for i in pending])
+        for i, (outcome, secs) in zip(pending, results):
+            which, desc, text = docs[i]
+            ctx.case(nontrivial_key=('patho', i))
+            ctx.count('termination:%s:run-%d' % (which, desc['run']))
+            if secs / term_budget(text) > slowest[0] / slowest[1]:
+                slowest = (secs, term_budget(text))
+            if outcome.startswith('ESCAPE:'):
+                _e, cls, site = outcome.split(':', 2)
+                ctx.fail('C14:%s:%s:%s' % (which, cls, site),
+                         '%s parser raised %s in %s on a run of %d x %s followed by %s (%s) in region %s: %r' % (
+                             which, cls, site, desc['run'], desc['item'], desc['terminator'], desc['closing'], desc['region'], text[:200]),
+                         {'parser': which, 'document': text, 'stress': True})
+        if stalled is None:
+            break
+        i = pending[stalled]
+        which, desc, text = docs[i]
+        budget = term_budget(text)
+        _r, again = run_watched([(which, text)], scale=1.5)
+        if again is None:
+            ctx.count('termination:slow-once-but-finished-when-repeated')
+        else:
+            failures += 1
+            skip.add((which, desc['region']))
+            ctx.fail('C14:%s:does-not-terminate' % which,
+                     '%s parser does not terminate: no result after %.1f s of CPU time, and again none after %.1f s alone in a fresh '
+                     'interpreter (the slowest document of this class needs ~0.03 s, the budget is 4 s + 0.5 ms per character), on a '
+                     'document of %d characters with a run of %d x %s followed by %s (%s) in region %s: %r' % (
+                         which, budget, 1.5 * budget, len(text), desc['run'], desc['item'], desc['terminator'], desc['closing'],
+                         desc['region'], text if len(text) <= 400 else text[:400] + '...'),
+                     {'parser': which, 'document': text, 'termination': True, 'describe': desc})
+        pending = [j for j in pending[stalled + 1:] if (docs[j][0], docs[j][1]['region']) not in skip]
+        if failures >= TERM_MAX_FAILURES:
+            ctx.count('termination:not-run-after-%d-failures' % failures, len(pending))
+            break
+    ctx.extra['termination'] = {'documents': len(docs), 'closest_to_budget': {'seconds': round(slowest[0], 4), 'budget': round(slowest[1], 2)}}
+
+
 def run(ctx):
     corecheck.run(ctx)
     c14text.run_text(ctx)
     c14om.run_om(ctx)
     stress(ctx)
+    termination(ctx)
     history_independence(ctx)
     if not ctx.rule:
         ctx.rule = 'see c14text.py / c14om.py'
     ctx.rule += ('; stress stream: special number tokens substituted at every value position of generated documents, runs of 1100/3000 '
-                 'of each special character inserted at random positions, hand-made worst cases (oracle on the real parsers only)')
+                 'of each special character inserted at random positions, hand-made worst cases (oracle on the real parsers only)'
+                 '; termination: every list- / sequence-like region (native-histogram delta / span lists and fields, label lists, label '
+                 'values and names, numbers, HELP text, metadata, lines) x a run of 30 / 60 / 200 / 2000 of each repeated item x each wrong '
+                 'terminator (nothing, decimal point, ";", letter, blank, comma, minus, quote, backslash) x own / enclosing closing token '
+                 'present or lost, parsed in a helper interpreter under a CPU-time budget of 4 s + 0.5 ms per character (> 100 x the '
+                 'slowest such document), a document over budget is repeated alone before it is reported')
 
 
 def replay(ctx, case):
@@ -240,6 +415,14 @@ def replay(ctx, case):
     if c.get('history'):
         print('REPLAY outcome in this (fresh) process:', outcome_here(c['parser'], c['document'])[:200], '- history dependence needs the full run')
         return 0
+    if c.get('termination'):
+        res, stalled = run_watched([(c['parser'], c['document'])], scale=1.5)
+        if stalled is None:
+            print('REPLAY', c['parser'], 'parser finished in %.3f s ->' % res[0][1], res[0][0])
+            return 1 if res[0][0].startswith('ESCAPE') else 0
+        print('REPLAY', c['parser'], 'parser: no result within %.1f s of CPU time on a document of %d characters (%s)' % (
+            1.5 * term_budget(c['document']), len(c['document']), c.get('describe')))
+        return 1
     if c.get('stress'):
         r = probe(c['parser'], c['document'])
         print('REPLAY', c['parser'], 'parser ->', r or 'families or ValueError')
